@@ -17,7 +17,7 @@ def tasks(tier, seed):
     n = 1000 if tier == "quick" else 32000
     shards = 48 if tier == "quick" else 192
     t = [("vpcheck.checks.c14m", "hyp", (n // shards, seed * 1_000_003 + 7000 + i, tier)) for i in range(shards)]
-    for name, nsh in (("str", 16), ("extra", 8), ("py", 16), ("rel", 4)):
+    for name, nsh in (("str", 16), ("extra", 8), ("py", 16), ("rel", 4), ("groups", 16)):
         t += [("vpcheck.checks.c14m", "tables", (name, tier, sh, nsh)) for sh in range(nsh)]
     return t
 
@@ -33,6 +33,21 @@ def tables(acc, name, tier, shard, nshards):
     acc.exhaustive_layers.add(layer)
     mod = sys.modules[MOD]
     quick = tier == "quick"
+    if name == "groups":
+        # ==-groups, !=-groups and single atoms of one string variable as whole operands: the group x group rules
+        # need four or more atoms, which no triple of single atoms reaches
+        seen, ops = set(), []
+        for case in c02.table_cases("str-group-pairs", tier):
+            for e in (case["a"], case["b"]):
+                k = harness.jkey(e)
+                if k not in seen:
+                    seen.add(k)
+                    ops.append(e)
+        ops = ops[:: 2 if quick else 1]
+        for i, (x, y, z) in enumerate(itertools.product(ops, repeat=3)):
+            if i % nshards == shard:
+                harness.process(mod, acc, "markertriple", {"a": x, "b": y, "c": z}, layer, timeout_s=2.5 if quick else 6.0)
+        return
     if name == "str":
         A = c02.str_atoms(tier)
     elif name == "extra":
